@@ -38,10 +38,16 @@ theorem C03_post_needs_target_first :
         (.seq (.leaf .setTarget { flag := false }) (.seq (.leaf .leap {}) .skip)))
         (init witStatePrep.cfg)) = false := by decide +kernel
 
-/-- Qutrit single-qudit path: for the qutrit model class the regenerated circuit workflow can
-reach `GeneralSQDecomposition`, whose run on a qutrit block RAISES (the translator ran it: it
-builds `Circuit(1)`, a qubit circuit, for the qutrit gate) — the calculus reports `crash`. -/
-theorem C03_qutrit_sq_crash_witness : witQutritSQ.final.crash = true := by decide +kernel
+/-- No modelled pass of any regenerated unitary / state / state-system workflow can raise where
+it is reachable (the translator RUNS the layer generators, template generators and deterministic
+single-qudit rules on dummy blocks of the configuration's model; before the fix d7fbe96
+`GeneralSQDecomposition` raised on qutrit blocks and this statement failed for the qutrit model
+class). -/
+theorem C03_no_modelled_pass_raises :
+    ∀ w ∈ workflows, w.isCircuit = false → w.final.crash = false := by
+  intro w hw _
+  have := allCheck_noRaise (workflows_ok w hw)
+  simpa [noRaise] using this
 
 /-- The submit / collect loop of `compile()` for a sequence of inputs (`job_ids = [submit …]`,
 `results = [result(id) for id in job_ids]`) returns exactly one result per input, in input order,
